@@ -26,9 +26,15 @@ def same_document(a: str, b: str) -> bool:
         from flowmark.formats.frontmatter import split_frontmatter
         pa = dedent(split_frontmatter(a)[1]).strip() + "\n"
         pb = dedent(split_frontmatter(b)[1]).strip() + "\n"
-        ta, tb = c01.canon(mdast.doc_tree(pa)), c01.canon(mdast.doc_tree(pb))
+        ra, rb = mdast.doc_tree(pa), mdast.doc_tree(pb)
+        ta, tb = c01.canon(ra), c01.canon(rb)
+
+        def codes(t):      # code content exactly, trailing blank lines included: a different number of them is a different document
+            if t["t"] in ("CodeBlock", "FencedCode", "CustomFencedCode"):
+                return ["".join(k.get("s", "") for k in t.get("c", []))]
+            return [x for k in t.get("c", []) for x in codes(k)]
         return c01.tree_diff(ta, tb) is None and ta.get("link_ref_defs") == tb.get("link_ref_defs") and \
-            c01.tight_flags(pa) == c01.tight_flags(pb)
+            c01.tight_flags(pa) == c01.tight_flags(pb) and codes(ra) == codes(rb)
     except Exception:
         return False
 
